@@ -46,6 +46,7 @@ const (
 	REDotN
 	RUserArgs
 	RFive
+	RFiveLookahead
 	RLastComment
 	RSixth
 	RTickComment
@@ -55,7 +56,7 @@ const (
 
 var RuleNames = [NRules]string{"ss", "semi_semi", "op_unary", "paren_unary", "merge", "semi_if", "func_name", "in", "like", "type_x", "collate", "backslash_arith", "backslash_drop",
 	"paren_paren", "close_close", "brace_evil", "brace_word", "close_brace", "1o1", "oxo", "and_and", "vox", "non", "cast_type", "comma_list", "expr_unary_paren", "kw_unary_x",
-	"comma_unary_x", "comma_unary_f", "n_dot_n", "e_dot_n", "user_args", "five_token_special", "last_comment_appended", "sixth_token_dropped", "tick_comment", "evil_collapse"}
+	"comma_unary_x", "comma_unary_f", "n_dot_n", "e_dot_n", "user_args", "five_token_special", "five_token_special_with_sixth_token", "last_comment_appended", "sixth_token_dropped", "tick_comment", "evil_collapse"}
 
 func (f *Folder) hit(r int) {
 	if f.Hits[r] < 60000 {
@@ -174,6 +175,7 @@ func (f *Folder) Fold() int {
 			if m {
 				f.hit(RFive)
 				if pos > maxTok {
+					f.hit(RFiveLookahead)
 					f.v[1] = f.v[maxTok]
 					pos = 2
 				} else {
